@@ -11,7 +11,11 @@ Import ListNotations.
 From JV Require Import Model.SbxAttr.
 Open Scope string_scope.
 
-Inductive key := KStr (s : string) | KInt (z : Z).
+(* [KSub content shown]: an instance of a str subclass used as a subscript key — it hashes / compares
+   like the str [content] (dict lookup, startswith), while str(key) is [shown] *)
+Inductive key := KStr (s : string) | KInt (z : Z) | KSub (content shown : string).
+
+Definition norm_key (k : key) : key := match k with KSub c _ => KStr c | _ => k end.
 
 Definition key_eqb (a b : key) : bool :=
   match a, b with
@@ -63,7 +67,7 @@ Definition py_getattr (o : value) (a : string) : option value :=
 (* obj[key] *)
 Definition py_getitem (o : value) (k : key) : option value :=
   match o with
-  | VObj _ _ items => assoc_k k items
+  | VObj _ _ items => assoc_k (norm_key k) items
   | _ => None
   end.
 
@@ -125,6 +129,11 @@ Definition sandbox_getitem (tb : tables) (o : value) (k : key) : result :=
             | Some v => attr_branch tb o a v
             | None => RUndefined
             end
+        | KSub _ shown =>            (* attr = str(argument): fetched AND checked under that name *)
+            match py_getattr o shown with
+            | Some v => attr_branch tb o shown v
+            | None => RUndefined
+            end
         | KInt _ => RUndefined
         end
     end
@@ -178,13 +187,13 @@ Fixpoint walk (tb : tables) (o : value) (p : list step) : result :=
 Definition get_value (args : list value) (kwargs : list (string * value)) (first : key) : option value :=
   match first with
   | KInt z => if Z.ltb z 0 then None else nth_error args (Z.to_nat z)
-  | KStr s => assoc_s s kwargs
+  | KStr s | KSub s _ => assoc_s s kwargs
   end.
 
 Definition get_field (tb : tables) (args : list value) (kwargs : list (string * value))
            (first : key) (rest : list step) : result :=
   match get_value args kwargs first with
-  | None => RRaise (match first with KInt _ => EIndexError | KStr _ => EKeyError end)
+  | None => RRaise (match first with KInt _ => EIndexError | _ => EKeyError end)
   | Some o => walk tb o rest
   end.
 
